@@ -129,6 +129,11 @@ class Base(probe.Contract):
                 core.ctx().check(self.api, 'result_is_a_new_object', not same, shape_tags(t) if same else (), None, prop='C06')
         if any(s is None for s in st['snaps']):
             return
+        if any(not all(np.all(np.isfinite(c)) for c in s.cores) for s in st['snaps']):
+            # operands containing inf / nan (what a solver that normalises by the norm of a zero state hands to the TT algebra): no value
+            # of a "dense tensor" is defined for them, the value clauses do not apply
+            core.ctx().skip('operand_with_non_finite_entries')
+            return
         try:
             big = any(tt_consistent(t)[0] and dense_size(t.cores) > MAX_DENSE for t in _find_tts([res], []))
         except Exception:
